@@ -40,7 +40,7 @@ func init() {
 	for _, n := range simhook.ProbeNames {
 		pn = append(pn, n)
 	}
-	pn = append(pn, "same-type-first-used-by-2+-tasks", "type-nested-in-another-tasks-type", "recursive-type", "map-field-type(proto structPool)", "anymap-of-fresh-types", "ops", "typeof-identity-checked", "result-stability-checked")
+	pn = append(pn, "same-type-first-used-by-2+-tasks", "type-nested-in-another-tasks-type", "recursive-type", "map-field-type(proto structPool)", "anymap-of-fresh-types", "ops", "typeof-identity-checked", "result-stability-checked", "steady-state-rechecked")
 	core.Register(&core.Property{
 		ID: "C09", Level: "exploration", Engine: "sched", Race: true, Sched: true,
 		Quick: 60000, Thorough: 3000000,
@@ -621,6 +621,24 @@ func runC09(r *core.Run) {
 				}
 			}
 		}
+	}
+	// steady state: the caches the concurrent phase left behind must serve the
+	// same operations, run once more one after the other, exactly like pristine
+	// caches do (a lost update may cost a rebuild, never a wrong or half-built codec)
+	for i := range tasks {
+		for j, op := range tasks[i] {
+			var again c09Res
+			simhook.Run(1, cfg, func(int) { again = op.exec() })
+			r.Probe("steady-state-rechecked")
+			if ok, why := sameRes(&again, &ref[i][j]); !ok {
+				r.Fail("steady-state-differs-from-alone", opNames[op.kind], "after the concurrent phase, task %d op %d %s run again on the caches it left behind returns something else than on pristine caches: %s", i, j, op, why)
+				return
+			}
+		}
+	}
+	if v := simhook.TakeViolation(); v != "" {
+		r.Fail("pool-monitor", "steady:"+firstWord(v), "%s", v)
+		return
 	}
 	// proto.TypeOf: one Type per Go type within a run
 	byType := map[reflect.Type]proto.Type{}
